@@ -22,18 +22,26 @@ def gen_exp_powers(tu):
     loop = [l for l in loops_of(f) if l["kind"] == "ForStmt"][-2]
     names = locals_of(f)
 
-    def setup(path):
+    def setup(path, alias=False):
         dom, I = mk(tu, path, drop_leaf=("PowersOfX",))
         A = Lin.gen("a")
-        this, a = I.new_object("Fq12"), I.new_object("Fq12")
+        a = I.new_object("Fq12")
+        this = a if alias else I.new_object("Fq12")          # x.exponentiate_gt(x, k): used in place by callers (C18)
         a.val = A
         sc = I.new_object("PowersOfX")
         for c in sc.f["c"].items:
             c.val = 0
         return dom, I, A, this, a, sc
 
-    def run_base(path):
-        dom, I, A, this, a, sc = setup(path)
+    def tval(e):
+        """a table entry: the element itself, or the element a pointer entry refers to"""
+        if hasattr(e, "val"):
+            return e.val
+        v = e.v if isinstance(e, Cell) else e
+        return v.deref().val
+
+    def run_base(path, alias=False):
+        dom, I, A, this, a, sc = setup(path, alias)
 
         def cut(I_, n, env):
             init, cond, inc, body = for_parts(n)
@@ -44,14 +52,15 @@ def gen_exp_powers(tu):
                    ("base: found_one == false", "ok" if env[names["found_one"]].v == 0 else "fail", "", None),
                    ("base: i == 63 (every digit is below |x| < 2^64)", "ok" if env[loop_var(n)].v == 63 else "fail", repr(env[loop_var(n)].v), None)]
             for j, e in enumerate(t.items):
-                obs.append(lin_eq("base: t[%d] == a^(|x|^%d)" % (j, j), e.val, A.scale(X_ABS ** j)))
+                obs.append(lin_eq("base: t[%d] == a^(|x|^%d)" % (j, j), tval(e), A.scale(X_ABS ** j)))
             raise CutDone(obs)
         I.loop_cuts[loop["id"]] = cut
         return run_cut(I, f, this, [a, sc])
     yield "base", guarded(run_base)
+    yield "base [out = a]", guarded(lambda p: run_base(p, True))
 
-    def run_step(path):
-        dom, I, A, this, a, sc = setup(path)
+    def run_step(path, alias=False):
+        dom, I, A, this, a, sc = setup(path, alias)
 
         def cut(I_, n, env):
             init, cond, inc, body = for_parts(n)
@@ -72,10 +81,11 @@ def gen_exp_powers(tu):
                            lin_eq("step[bits=%s,found_one=%d]: acc' == acc^2 * prod t_j^(b_j)" % (bits, f1), this.val, want),
                            ("step: found_one'", "ok" if env[names["found_one"]].v == (1 if (f1 or any(bits)) else 0) else "fail", "", None),
                            ("step: i' == i - 1", "ok" if env[loop_var(n)].v == i0 - 1 else "fail", "", None), guard_after(I_, n, env, i0)] +
-                          [lin_eq("frame: t[%d]" % j, e.val, A.scale(X_ABS ** j)) for j, e in enumerate(env[names["t"]].items)])
+                          [lin_eq("frame: t[%d]" % j, tval(e), A.scale(X_ABS ** j)) for j, e in enumerate(env[names["t"]].items)])
         I.loop_cuts[loop["id"]] = cut
         return run_cut(I, f, this, [a, sc])
     yield "step", guarded(run_step)
+    yield "step [out = a]", guarded(lambda p: run_step(p, True))
 
 
 def gen_nodiv(tu):
@@ -120,11 +130,12 @@ def gen_nodiv(tu):
 
 def gen_wrappers(tu):
     """exponentiate_gt_div / exponentiate_gt(BigInt) / exponentiate_gt_nodiv / random_gt: composition by contract"""
-    def run_div(path, q):
+    def run_div(path, q, alias=False):
         dom, I = mk(tu, path)
         f = tu.func(q)
         A = Lin.gen("a")
-        this, a = I.new_object("Fq12"), I.new_object("Fq12")
+        a = I.new_object("Fq12")
+        this = a if alias else I.new_object("Fq12")
         a.val = A
         k = I.new_object("BigInt<256>")
         k.val = dom.input_scalar("k")
@@ -132,6 +143,7 @@ def gen_wrappers(tu):
         return [lin_eq("result == a^k", this.val, A.scale(Poly.var("k")))]
     for q in ("Fq12::exponentiate_gt_div", "Fq12::exponentiate_gt(const Fq12 &, const BigInt<256> &)"):
         yield q, guarded(lambda p, q=q: run_div(p, q))
+        yield q + " [out = a]", guarded(lambda p, q=q: run_div(p, q, True))
     nd = [x for x in tu.by_qname if x.startswith("Fq12::exponentiate_gt_nodiv") and tu.by_qname[x].body is not None]
     for q in nd:
         def run_nd(path, q=q):
@@ -145,11 +157,12 @@ def gen_wrappers(tu):
             return [lin_eq("result == a^k with out = a", this.val, Lin.gen("a").scale(Poly.var("k")))] + [(kd, "fail", m, None) for kd, m in dom.findings]
         yield q, guarded(run_nd)
 
-    def run_rgt(path):
+    def run_rgt(path, alias=False):
         dom, I = mk(tu, path)
         f = tu.func("Fq12::random_gt")
         B = Lin.gen("base")
-        this, base = I.new_object("Fq12"), I.new_object("Fq12")
+        base = I.new_object("Fq12")
+        this = base if alias else I.new_object("Fq12")
         base.val = B
         y = I.new_object("BigInt<256>")
         I.call(f, this, [y, base, Cell("rng")], force_body=True)
@@ -157,11 +170,12 @@ def gen_wrappers(tu):
         ok = isinstance(yv, Poly) and len(yv.vars()) == 1 and yv.vars()[0].startswith("rnd#") and dom.ranges.get(yv.vars()[0]) == (0, R_ORDER)
         return [("y is the sampler's value in [0, r)", "ok" if ok else "fail", repr(yv), None), lin_eq("result == base^y", this.val, B.scale(yv if ok else Poly.var("?")))]
     yield "Fq12::random_gt", guarded(run_rgt)
+    yield "Fq12::random_gt [out = base]", guarded(lambda p: run_rgt(p, True))
 
 
 def units():
     lower = ["Fq12::multiply / square_cyclotomic / conjugate on GT = +, *2, - in the exponent (C04; Granger-Scott and conj = inverse on the cyclotomic subgroup: trusted)",
              "Fq12::frobenius_map(.,k) = exponentiation by q^k = x^k (mod r) on GT (trusted; q = x mod r by construction)", "PowersOfX::decompose / random: integer-level units", "Horner's rule (paper)"]
-    return [ScenUnit("Fq12::exponentiate_gt(PowersOfX): four-way Horner step for every bit pattern", P, gen_exp_powers, targets=["Fq12::exponentiate_gt(const Fq12 &, const PowersOfX &)"], contracts_used=lower),
+    return [ScenUnit("Fq12::exponentiate_gt(PowersOfX): four-way Horner step for every bit pattern", P + ["C18"], gen_exp_powers, targets=["Fq12::exponentiate_gt(const Fq12 &, const PowersOfX &)"], contracts_used=lower),
             ScenUnit("Fq12::exponentiate_restrict_cyclotomic_nodiv: square-and-multiply step", P, gen_nodiv, contracts_used=lower),
-            ScenUnit("Fq12::exponentiate_gt_div / exponentiate_gt / exponentiate_gt_nodiv / random_gt == a^k", P + ["C10"], gen_wrappers, targets=["Fq12::exponentiate_gt_div", "Fq12::random_gt"], contracts_used=lower)]
+            ScenUnit("Fq12::exponentiate_gt_div / exponentiate_gt / exponentiate_gt_nodiv / random_gt == a^k", P + ["C10", "C18"], gen_wrappers, targets=["Fq12::exponentiate_gt_div", "Fq12::random_gt"], contracts_used=lower)]
